@@ -33,6 +33,7 @@ TRUSTED = [
     'polib + lib/polib4us.py produce the entry list (C10 is about that step); the model starts from the parsed entries',
     'the `re` engine is replaced by scanners, tied per regex by small-scope exhaustive comparison',
     'extraction (ExtrOcamlBasic only) + ocaml/driver.ml',
+    'source translator tools/gen/gen_messages_src.py (python ast of is_header_entry, _check_message_flags, _check_message_xml_format, _check_message_formats, check_messages -> Generated/MessagesSrc.v; rules in its docstring) and its target vocabulary Model/MessagesPy.v (loops, dicts, sets, view of a polib entry); C16_source_tie_* prove the translation equal to the model',
 ]
 ASSUME = [
     'message_repr / safe_format (the text naming the message in extras) belong to C02; here the extras are checked to name the entry the tag was emitted for',
